@@ -18,7 +18,14 @@ mod verif_xml_escape {
             if d.len() > self.buf.len() - self.len {
                 self.overflow = true;
             } else {
-                self.buf[self.len..self.len + d.len()].copy_from_slice(d);
+                // every write of write_escaped is a piece of the input or one entity: at most 6 octets
+                // (a constant-bound copy is much cheaper for CBMC than a memcpy of symbolic length)
+                if d.len() > 6 { self.overflow = true; }
+                let mut j = 0;
+                while j < 6 {
+                    if j < d.len() { self.buf[self.len + j] = d[j]; }
+                    j += 1;
+                }
                 self.len += d.len();
             }
             Ok(d.len())
@@ -88,7 +95,7 @@ mod verif_xml_escape {
         assert!(p == n, "nothing after the last input octet");
     }}
     //@harness xml_escape_kb_n3 Kb fn=TextEscape::write_escaped timeout=300 bound="texts of at most 3 octets, every octet value, both modes"
-    verif_harness!{ #[kani::unwind(9)] xml_escape_kb_n3; |attr: bool, b: [u8; 6], len: usize| {
+    verif_harness!{ #[kani::unwind(8)] xml_escape_kb_n3; |attr: bool, b: [u8; 6], len: usize| {
         assume(len <= 3);
         let mode = if attr { TextEscape::Attr } else { TextEscape::Pcdata };
         let mut sink = Sink { buf: [0u8; 40], len: 0, overflow: false };
@@ -102,7 +109,7 @@ mod verif_xml_escape {
         let mut k = 0;
         let mut p = 0;
         let mut i = 0;
-        while i < 6 {
+        while i < 3 {
             if i < len {
                 assert!(p < n, "output covers every input octet");
                 match entity_at(&sink.buf, p, n) {
